@@ -930,4 +930,12 @@ theorem video_rtx_echo_offered (c : Cfg) (remote : List Media) (hasLocal : Bool)
   · exact h'
 
 
+
+/-- the id token of an echoed extension line -/
+theorem extAttr_id (id uri : Str) (hid : IsTok id) : (splitWs (id ++ sp ++ uri)).head? = some id := by
+  have : id ++ sp ++ uri = id ++ ' ' :: uri := by simp [sp]
+  rw [this]
+  exact splitWs_head_tok id uri hid
+
+
 end RtcModel.Answer
